@@ -70,7 +70,7 @@ pub fn replay(args: &[String]) {
                         nsound += 1;
                         if viol.len() < 40 {
                             viol.push(json!({"which": "soundness", "grammar": text, "start": start, "input": inp,
-                                             "inp": rec["witness"]["inp"], "observed": obs,
+                                             "inp": rec["witness"]["inp"], "observed": obs, "cause": rec.get("cause").cloned().unwrap_or(json!("")),
                                              "model": "parse diverges (rule re-entered at the same position or repetition without progress)"}));
                         }
                     }
